@@ -21,7 +21,7 @@ PROPS = {
     "C01": {
         "level": "exploration",
         "technique": "rapid property tests: round-trip + differential against an independent CBOR encoder/decoder; item-level mutation; native coverage-guided fuzzing (thorough)",
-        "level_text": "Generated valid bundles are serialised, compared byte for byte with an independent encoder, parsed, compared field-wise and re-serialised; accepted mutants and fuzz inputs go through the parse->serialise->parse fixed-point oracle. Exploration is the right level: the domain is unbounded, the oracle is exact. The same bundles are also parsed while the routing block types are unregistered (generic round trip), and dtn-tool's create/show are driven in-process.",
+        "level_text": "Generated valid bundles are serialised, compared byte for byte with an independent encoder, parsed, compared field-wise and re-serialised; accepted mutants and fuzz inputs go through the parse->serialise->parse fixed-point oracle. Exploration is the right level: the domain is unbounded, the oracle is exact. The same bundles are also parsed while the routing block types are unregistered (generic round trip), and dtn-tool's create/show are driven in-process. The parser's verdict and result must not depend on how the io.Reader chunks the bytes (one byte at a time, cyclic short reads).",
         "level_note": "trusts the harness' own 300-line CBOR reader/writer and CRCs (self-tested against published check values); Go's native fuzzer cannot be seeded",
         "assumptions": [
             "custom block types (spray, DTLSR, PRoPHET, signature) are registered through the public ExtensionBlockManager, as dtnd does",
@@ -39,7 +39,7 @@ PROPS = {
     "C03": {
         "level": "fault_enumeration",
         "technique": "exhaustive single-bit fault enumeration per generated bundle + rapid-generated bursts, judged by an independent CRC-16/X-25 and CRC-32C implementation over independently delimited blocks",
-        "level_text": "For every generated fully CRC-protected bundle every bit position is flipped (exhaustive per bundle) and random bursts up to the CRC width are injected; acceptance is judged by independent bit-wise CRCs. The serialiser's CRCs are compared with the same independent implementation, and every public constructor path is enumerated for 'primary block always carries a CRC'. Serialiser histories (in-place field changes, interrupted writes, parse-and-modify, concurrent serialisation) check 'always writes that value' for objects with a past.",
+        "level_text": "For every generated fully CRC-protected bundle every bit position is flipped (exhaustive per bundle) and random bursts up to the CRC width are injected; acceptance is judged by independent bit-wise CRCs. The serialiser's CRCs are compared with the same independent implementation, and every public constructor path is enumerated for 'primary block always carries a CRC'. Serialiser histories (in-place field changes, interrupted writes, parse-and-modify, concurrent serialisation) check 'always writes that value' for objects with a past. Every CBOR head inside every block (incl. the CRC field's own length head) is re-written in every wider form with the original, the correct and three plausibly-wrong CRC values: accepted => CRC over exactly the received bytes.",
         "level_note": "trusts the harness' bit-wise CRC implementations (self-tested with the published check values 0x906E / 0xE3069283) and CBOR reader; bundles 60..700 bytes for the exhaustive part, up to 70 KB for bursts",
         "assumptions": ["bursts are confined to one block; bursts that move a block boundary are outside the statement's premise and only checked for 'not accepted unless sound'"],
         "units": [
@@ -55,7 +55,7 @@ PROPS = {
     "C02": {
         "level": "exploration",
         "technique": "rapid property tests + enumeration: rule-violating edits of valid encodings (CRCs recomputed) judged by an independent BPv7 rule validator; producer outputs (builder sequences, BuildFromMap, Fragment/Reassemble, node-generated bundles) validated and re-parsed",
-        "level_text": "accept => rules: every edit kind x variant is enumerated on several seeds, pairs/triples and item-level mutants are random; produced => rules and accepted: random builder call sequences, JSON argument maps, fragmentation outputs. The validator is an independent re-implementation of exactly the rules in the statement. Node-generated bundles: on a real node per routing algorithm every bundle handed to a convergence layer or agent (status reports, pongs, routing metadata, broadcasts, forwarded bundles) is validated the same way.",
+        "level_text": "accept => rules: every edit kind x variant is enumerated on several seeds, pairs/triples and item-level mutants are random; produced => rules and accepted: random builder call sequences, JSON argument maps, fragmentation outputs. The validator is an independent re-implementation of exactly the rules in the statement. Node-generated bundles: on a real node per routing algorithm every bundle handed to a convergence layer or agent (status reports, pongs, routing metadata, broadcasts, forwarded bundles) is validated the same way. ",
         "level_note": "trusts the harness' rule validator (about 200 lines) and CBOR reader; expiry is not judged within 5 s of the expiry instant (the code reads its own clock)",
         "assumptions": ["endpoint validity = documented grammar (dtn:none, //node/demux with node over [A-Za-z0-9._-], demux without line break; ipn numbers >= 1); checked for the three primary-block endpoints and the previous-node block"],
         "units": [
@@ -115,7 +115,7 @@ PROPS = {
     "C11": {
         "level": "exploration",
         "technique": "exhaustive (length, segment size) grid + rapid property tests over back-to-back TransferManagers + enumerated peer faults; validity predicate over the segment train and 'success => delivered once, identical'",
-        "level_text": "All (L, m) pairs for L up to 160/400 are enumerated, so every divisor case m | L occurs; real bundles (padded to multiples of m) are transferred between two managers, also concurrently in both directions; a scripted peer enumerates every position for stopped acknowledgements, refusals, wrong acknowledgements and manager shutdown. Real TCP and WebSocket sessions on loopback (listener-created client under a real cla.Manager) carry bundles of exactly 1 and 2 segments of the 1 MiB MRU +-1 byte in both directions, sequentially and concurrently, with session loss followed by a further Send; a spin-barrier stress makes Send calls of one session overlap.",
+        "level_text": "All (L, m) pairs for L up to 160/400 are enumerated, so every divisor case m | L occurs; real bundles (padded to multiples of m) are transferred between two managers, also concurrently in both directions; a scripted peer enumerates every position for stopped acknowledgements, refusals, wrong acknowledgements and manager shutdown. Real TCP and WebSocket sessions on loopback (listener-created client under a real cla.Manager) carry bundles of exactly 1 and 2 segments of the 1 MiB MRU +-1 byte in both directions, sequentially and concurrently, with session loss followed by a further Send; a spin-barrier stress makes Send calls of one session overlap. The session stage between connection and transfer manager must keep the order of up to 3000 received segments whatever the pace of its consumer; every XFER_REFUSE reason code must make Send fail.",
         "level_note": "the 'stops acknowledging' fault relies on the implementation's own 10 s timeout; a missing hand-up is awaited 5 s (expected latency: microseconds). The segment MRU of a socket session is fixed at 1 MiB by Client.Start. The concurrent stress is schedule-dependent (statistical).",
         "assumptions": ["segment size >= 1 (size 0 belongs to C04)"],
         "units": [
@@ -131,7 +131,7 @@ PROPS = {
     "C16": {
         "level": "exploration",
         "technique": "model-based (stateful) rapid property test: generated traces replayed on the real Manager with gated mock adapters, reference state machine as oracle",
-        "level_text": "Traces over register / re-register / unregister / retry tick with scripted outcome / peer-disappeared / restart / close are executed against the real Manager.handler (4 ms retry interval); mock adapters block in Start until the harness supplies the outcome, so the retry loop advances one observable step at a time; the reference model is fed by the observed Start/Close calls and compared with Sender()/Receiver() after every step.",
+        "level_text": "Traces over register / re-register / unregister / retry tick with scripted outcome / peer-disappeared / restart / close are executed against the real Manager.handler (4 ms retry interval); mock adapters block in Start until the harness supplies the outcome, so the retry loop advances one observable step at a time; the reference model is fed by the observed Start/Close calls and compared with Sender()/Receiver() after every step. Further ops: the address registered again while the adapter waits for its retry, another instance with the same address unregistered; a second unit uses the Manager exactly as NewManager builds it under bursts of status reports (no deadlock, restart after peer loss, one Close per successful Start).",
         "level_note": "a permanent adapter that reports 'do not retry' is modelled as the code behaves (forgotten); liveness clauses use 5 s bounds against a 4 ms retry interval",
         "assumptions": ["adapters have distinct addresses and endpoint IDs", "register-again is exercised while the first instance is started"],
         "units": [
@@ -142,7 +142,7 @@ PROPS = {
     "C12": {
         "level": "fault_enumeration",
         "technique": "fault enumeration (every single drop / duplication / adjacent swap per fragment train; connection reset after k bundles) + rapid multi-fault property tests; differential against an independent reference receiver and byte-identity of delivered bundles",
-        "level_text": "BBC: for each (bundle, MTU) the whole single-fault space is enumerated and random multi-fault patterns and interleaved transmissions are generated; the receiver is compared with an independent reference receiver of the link protocol and every delivery must be byte-identical. MTCP: generated bundle/keep-alive sequences over a real loopback connection must arrive identical and in order, also with 1..3 sending goroutines and a keep-alive writer racing on one client (frames above the 4 KiB write buffer); a scripted peer resets the connection after k bundles and the next Send must fail and report PeerDisappeared.",
+        "level_text": "BBC: for each (bundle, MTU) the whole single-fault space is enumerated and random multi-fault patterns and interleaved transmissions are generated; the receiver is compared with an independent reference receiver of the link protocol and every delivery must be byte-identical. MTCP: generated bundle/keep-alive sequences over a real loopback connection must arrive identical and in order, also with 1..3 sending goroutines and a keep-alive writer racing on one client (frames above the 4 KiB write buffer); a peer that resets or closes in an orderly way makes the next Send fail, and a Send on a closed client returns an error instead of panicking; a scripted peer resets the connection after k bundles and the next Send must fail and report PeerDisappeared.",
         "level_note": "loss of the last fragment(s) and a duplicated one-fragment transmission cannot be detected by a receiver and are excluded from the 'signals failure' clause; a cut racing with a send is not decided; the rf95 modem needs hardware (only the Modem interface contract is exercised); loopback only",
         "assumptions": ["modem MTU >= 3", "every received fragment owns its buffer"],
         "units": [
@@ -156,7 +156,7 @@ PROPS = {
     "C04": {
         "level": "exploration",
         "technique": "structured boundary-value enumeration of every length/count field + truncation at every offset, run in disposable child processes with an allocation and time oracle; native coverage-guided fuzzing per decoder (thorough)",
-        "level_text": "For each decoder valid messages are generated and every position at which a length or count is read is set to each of the 11 boundary values (one at a time and sampled pairs), plus every truncation; each input runs in a disposable child (6 GiB address-space limit) that reports allocation and time, so process death, escaping panics, hangs and allocation proportional to an unarrived length are all observable.",
+        "level_text": "For each decoder valid messages are generated and every position at which a length or count is read is set to each of the 11 boundary values (one at a time and sampled pairs), plus every truncation; each input runs in a disposable child (6 GiB address-space limit) that reports allocation and time, so process death, escaping panics, hangs and allocation proportional to an unarrived length are all observable. Decoder targets use the decoded value as the node does (String, ID, JSON, record accessors); inputs include items replaced by items of another CBOR type with CRCs re-computed, status-item arrays of every length, and hostile records fed to a real node. One genuine finding (xz index allocation reached through BBC) is listed in known_findings.json, attributed by call site and excluded from the fuzz campaign by construction.",
         "level_note": "allocation budget 4 MiB + 256 x len(input) (16 MiB for BBC because of the xz dictionary); cboring's documented pre-allocation of up to 1 MiB for a declared string is inside the budget; inputs up to 64 KiB",
         "assumptions": ["a panic recovered by the code's own recover() in the MTCP handlers drops the connection as designed and is not a violation"],
         "units": [
@@ -185,7 +185,7 @@ PROPS = {
     "C08": {
         "level": "exploration",
         "technique": "stateful rapid property test against an in-memory reference map + crash-point fault enumeration (process killed at instrumented points, store reopened) + forced interleaving of concurrent fragment pushes",
-        "level_text": "Operation histories are executed on a real store and compared with a reference map after every step, including close+reopen; for seeded histories every (hook point, occurrence) pair inside Push/Delete is enumerated by killing a child process there and reopening the directory; concurrent pushes of different fragments are forced into the lookup-lookup-write-write order by a schedule hook, and 2..6 workers push runs of fragments without a forced schedule. A write-back of an item fetched before its record was deleted is part of the histories.",
+        "level_text": "Operation histories are executed on a real store and compared with a reference map after every step, including close+reopen; for seeded histories every (hook point, occurrence) pair inside Push/Delete is enumerated by killing a child process there and reopening the directory; concurrent pushes of different fragments are forced into the lookup-lookup-write-write order by a schedule hook, and 2..6 workers push runs of fragments without a forced schedule. A write-back of an item fetched before its record was deleted is part of the histories. After a kill the store must also accept another copy of the in-flight bundle (same ID, other bytes) and read back what it acknowledged.",
         "level_note": "process kill only (no power loss: unsynced data is still in the page cache); tmpfs scratch directory; whole-bundle push onto a record that holds fragments is not generated (the statement does not define it)",
         "assumptions": ["non-zero creation times (clock-less bundles are C05's)"],
         "units": [
@@ -198,7 +198,7 @@ PROPS = {
     "C14": {
         "level": "exploration",
         "technique": "stateful rapid property test on a real Core with scripted convergence layers and agents (node simulator); ID-uniqueness oracle over wire bytes and store contents",
-        "level_text": "Groups of bundles with coinciding source and creation time are submitted through every submission path, sequentially and concurrently, with and without connected peers, across retry ticks and an orderly restart; the oracle inspects the bytes handed to the scripted convergence layers and the store after every step. 2..8 goroutines released together assign thousands of IDs for one (source, creation time) through IdKeeper.update and through Core.SendBundle.",
+        "level_text": "Groups of bundles with coinciding source and creation time are submitted through every submission path, sequentially and concurrently, with and without connected peers, across retry ticks and an orderly restart; the oracle inspects the bytes handed to the scripted convergence layers and the store after every step. 2..8 goroutines released together assign thousands of IDs for one (source, creation time) through IdKeeper.update and through Core.SendBundle. Groups also cover application-preset sequence numbers, applications submitting fragments, gaps in the stored sequence numbers (some bundles delivered before a restart) and a second group re-using the first group's creation time.",
         "level_note": "creation times are 'now' or the epoch (the IdKeeper forgets older non-epoch timestamps by design); node-generated status reports are covered by C15's scenarios",
         "assumptions": ["cron jobs are unregistered and played as explicit events"],
         "units": [
@@ -209,7 +209,7 @@ PROPS = {
     "C05": {
         "level": "exploration",
         "technique": "stateful rapid property test on the node simulator with a reference model of 'accepted, not yet transmitted' + store inspection after every event; forced interleaving of concurrent failure reports through a schedule hook",
-        "level_text": "Event histories (submissions, receptions, peers appearing/disappearing, send outcomes, retry and cleaning ticks, restarts) are played on a real Core per routing algorithm; after every event the store's pending items are compared with the model and the per-peer send logs are checked for the destination and epidemic clauses. Concurrent failure reports are forced into the read-read-write-write order. An exhaustive product of circumstances around a restart (creation-time kind x bundles before/after x restarts) and an unforced rendezvous of 4..12 simultaneously failing transmissions complete the histories.",
+        "level_text": "Event histories (submissions, receptions, peers appearing/disappearing, send outcomes, retry and cleaning ticks, restarts) are played on a real Core per routing algorithm; after every event the store's pending items are compared with the model and the per-peer send logs are checked for the destination and epidemic clauses. Concurrent failure reports are forced into the read-read-write-write order. An exhaustive product of circumstances around a restart (creation-time kind x bundles before/after x restarts) and an unforced rendezvous of 4..12 simultaneously failing transmissions complete the histories. Status reports and unknown administrative records in transit (inspect-all option on/off) are carried like any other bundle; under epidemic routing a bundle may only leave the store once its destination node has it; histories include fragments and peers connected over two convergence layers.",
         "level_note": "cron jobs are played as explicit events (an asynchronous tick in the middle of an event is not explored); lifetimes of one hour, so expiry never interferes; bounded-exhaustive enumeration of short histories is replaced by random histories of 3..16 events",
         "assumptions": ["a bundle may leave the store once any convergence layer reported a successful transmission (as the statement says)"],
         "units": [
@@ -223,7 +223,7 @@ PROPS = {
     "C13": {
         "level": "exploration",
         "technique": "stateful rapid property test on the node simulator; invariant over the per-peer send log (history oracle)",
-        "level_text": "Histories with previous-node blocks, failing and succeeding transmissions, retry ticks and restarts are played per replicating algorithm; the log of what each scripted peer was handed (bundle ID on the wire + outcome) is checked against: never the previous node, never again after a success, again after a failure. An exhaustive product of circumstances around one bundle (destination connected/failing/leaving, previous node early/late, relay before/after/failing, restart, announced copies, repeated stale DTLSR broadcasts) is played per algorithm with the same oracle.",
+        "level_text": "Histories with previous-node blocks, failing and succeeding transmissions, retry ticks and restarts are played per replicating algorithm; the log of what each scripted peer was handed (bundle ID on the wire + outcome) is checked against: never the previous node, never again after a success, again after a failure. An exhaustive product of circumstances around one bundle (destination connected/failing/leaving, previous node early/late, relay before/after/failing, restart, announced copies, repeated stale DTLSR broadcasts) is played per algorithm with the same oracle. Histories and scenarios include fragments and a relay connected over two convergence layers at once.",
         "level_note": "the 'eligible again' clause is evaluated at retry ticks; for PRoPHET while peers have advertised a higher predictability since the last restart, for spray-and-wait while copies remain, not asserted for binary spray (its budget is C18's subject)",
         "assumptions": ["direct delivery to the destination node is exempt (statement)", "the second copy of a duplicate reception is dropped by the node, so its previous node is not asserted"],
         "units": [
@@ -244,7 +244,7 @@ PROPS = {
     "C15": {
         "level": "exploration",
         "technique": "exhaustive flag x outcome matrix on the node simulator; every emitted administrative record decoded independently and matched against the harness' event log (history oracle); feedback of reports for the cascade clause",
-        "level_text": "Every admissible cell of {request flags} x {time} x {fragment} x {outcome} x {report-to peer/self} is played on a fresh node (thorough: per algorithm). Each status report that leaves the node or reaches an agent must be well-formed, correctly addressed, reference the exact ID, and be justified by an earlier logged event and a request. Reports are fed back to show that no report is generated about a report. Outcomes include events that happen on a retry from the store (forwarded later, failing then succeeding, hop limit exceeded later), and each (status, reason) is reported at most once per event.",
+        "level_text": "Every admissible cell of {request flags} x {time} x {fragment} x {outcome} x {report-to peer/self} is played on a fresh node (thorough: per algorithm). Each status report that leaves the node or reaches an agent must be well-formed, correctly addressed, reference the exact ID, and be justified by an earlier logged event and a request. Reports are fed back to show that no report is generated about a report. Outcomes include events that happen on a retry from the store (forwarded later, failing then succeeding, hop limit exceeded later), and each (status, reason) is reported at most once per event; report-to may also be a local endpoint with another node name or the node name of one of two listeners of a convergence-layer type.",
         "level_note": "flag combinations the parser rejects (administrative record + request flags) cannot be received and are not part of the matrix; the quick tier plays every third cell (offset by the seed)",
         "assumptions": ["the report-to node is a connected peer so that reports leave immediately"],
         "units": [
@@ -254,7 +254,7 @@ PROPS = {
     "C07": {
         "level": "exploration",
         "technique": "stateful rapid property tests with a reference mailbox model: agent level (real MuxAgent + RestAgent + WebSocketAgent + mock/ping agents) and node level (simulator); forced deliver-during-fetch interleavings through schedule hooks",
-        "level_text": "Histories of register / unregister / deliver / fetch / connect / close are executed against the real agents; a marker bundle per endpoint is the barrier; after every fetch and at the end each client's received multiset must equal the model's. At node level bundles for registered endpoints must reach every matching agent once and no peer. The two lost-update interleavings of deliver and fetch on one REST mailbox are forced by hooks; agents leaving a MuxAgent while a hand-over waits for a slow sibling must neither duplicate nor lose deliveries.",
+        "level_text": "Histories of register / unregister / deliver / fetch / connect / close are executed against the real agents; a marker bundle per endpoint is the barrier; after every fetch and at the end each client's received multiset must equal the model's. At node level bundles for registered endpoints must reach every matching agent once and no peer. The two lost-update interleavings of deliver and fetch on one REST mailbox are forced by hooks; agents leaving a MuxAgent while a hand-over waits for a slow sibling must neither duplicate nor lose deliveries; a delivery made from inside a fetch's ResponseWriter (after the handler's mailbox work, before its answer) must neither be lost nor overwrite a fetched bundle; bundles (status reports included) arriving for an endpoint registered before or only after their arrival are handed over at most once and are done with afterwards.",
         "level_note": "WebSocket clients are real connections to an httptest server on loopback; REST requests go through the router without a socket",
         "assumptions": ["a REST client that unregisters loses its mailbox (as the handler documents)"],
         "units": [
@@ -268,8 +268,8 @@ PROPS = {
     "C18": {
         "level": "exploration",
         "technique": "stateful rapid property test on the node simulator with a copy-budget ledger model fed by the peers' observations; forced concurrent failure reports through a schedule hook",
-        "level_text": "Histories of submissions, receptions with k copies, peer churn, failing and succeeding transmissions (also to the directly connected destination) and retry ticks are played for L = 1..8 and up to 6 peers; the ledger is computed only from bytes and outcomes seen by the scripted peers, never from the algorithm's own map.",
-        "level_note": "spray metadata lives in memory, so restarts are not part of these histories; the closing phase (vanilla) connects all peers to show that no copy was lost",
+        "level_text": "Histories of submissions, receptions with k copies, peer churn, failing and succeeding transmissions (also to the directly connected destination) and retry ticks are played for L = 1..8 and up to 6 peers; the ledger is computed only from bytes and outcomes seen by the scripted peers, never from the algorithm's own map. Histories include orderly restarts, fragments and own bundles handed back by a relay; a real dialed TCPCLv4 session that breaks in mid-transfer must give the copy back like a scripted failure does.",
+        "level_note": "spray metadata lives in memory: after a restart the node may have forgotten copies (the 'no copy lost' closing phase is skipped then) but must never hand out more than its budget; the closing phase (vanilla) connects all peers to show that no copy was lost",
         "assumptions": ["bundles originated at this node have budget L; received ones one copy (vanilla) or the announced count (binary)"],
         "units": [
             {"name": "c18.histories", "pkg": ROUTING, "test": "TestVerifC18Histories", "shards_t": 16, "shards_q": 6, "crash_is_violation": True},
@@ -293,7 +293,7 @@ PROPS = {
     "C20": {
         "level": "exploration",
         "technique": "differential rapid property test: the node's routing table against an independent Floyd-Warshall over the link-state graph the node holds; validity predicate for next hops; arrival-order model for link-state updates",
-        "level_text": "Generated link-state graphs (own neighbours through real peer events, other nodes' link state through real DTLSR-block bundles in generated arrival orders) are fed to a real Core; after the recompute job the table must be a least-cost table for some instant in the bracket of clock readings, with next hops among the node's own neighbours; unicast bundles must only go to that next hop.",
+        "level_text": "Generated link-state graphs (own neighbours through real peer events, other nodes' link state through real DTLSR-block bundles in generated arrival orders) are fed to a real Core; after the recompute job the table must be a least-cost table for some instant in the bracket of clock readings, with next hops among the node's own neighbours; unicast bundles must only go to that next hop. The node's own link-state broadcast must be handed exactly once to every connected neighbour, also to one connected over two convergence layers.",
         "level_note": "lost links of the node itself are 0..20 ms old (real waits), received ones arbitrary; loss times in the future (clock skew) are outside the domain; the exhaustive enumeration of all graphs on 4 nodes is replaced by random graphs",
         "assumptions": ["several correct next hops may exist: a validity predicate is checked, not one expected answer"],
         "units": [
